@@ -17,7 +17,7 @@ T, VAL, NAME, FEW = ('InvalidArgumentTypeException', 'InvalidArgumentValueExcept
 OK = 'ok'
 
 PRE = [("'a'", OK), ("StrSub('a.')", OK), ("Pregex('a')", OK), ("AnyDigit()", OK), ("'a.b'", OK), ("Either('a', 'b')", OK), ("Pregex()", OK),
-       ("None", T), ("1", T), ("1.5", T), ("True", T), ("['a']", T), ("b'a'", T)]
+       ("None", T), ("1", T), ("1.5", T), ("True", T), ("['a']", T), ("b'a'", T), ("('a', 'b')", T), ("()", T), ("{'a': 1}", T)]
 PRE_NE = [x for x in PRE if x[0] != 'Pregex()']          # positions where the empty pattern has documented special meaning
 BOOL = [("True", OK), ("False", OK)]
 NAMES = [("'x'", OK), ("StrSub('x')", OK), ("'_a1'", OK), ("'A'", OK), ("''", NAME), ("'1a'", NAME), ("'a b'", NAME), ("'a-b'", NAME), ("'a\\n'", NAME),
